@@ -67,7 +67,10 @@ W0 = np.diag([1, 1, 1, 5e-2, 5e-2, 5e-2]).astype(float)
 W_SMALL = np.diag([0.02, 0.03, 0.05, 1e-3, 2e-3, 1e-3]).astype(float)
 W_DENSE = np.tril(np.array([[0.05, 0, 0, 0, 0, 0], [0.01, 0.04, 0, 0, 0, 0], [-0.01, 0.005, 0.06, 0, 0, 0],
                             [1e-3, 0, -1e-3, 5e-3, 0, 0], [0, 1e-3, 0, 1e-3, 4e-3, 0], [5e-4, 0, 1e-3, 0, -1e-3, 6e-3]]))
-WS = {"W0": W0, "small": W_SMALL, "dense": W_DENSE}
+# a filter that has converged: attitude std 1e-5 rad, gyro-bias std 1e-4 rad/s and below
+W_CONFIDENT = np.tril(np.array([[1e-5, 0, 0, 0, 0, 0], [2e-6, 1e-5, 0, 0, 0, 0], [0, -1e-6, 2e-5, 0, 0, 0],
+                                [1e-6, 0, 0, 1e-4, 0, 0], [0, 1e-6, 0, 0, 1e-4, 0], [0, 0, 2e-6, 1e-5, 0, 5e-5]]))
+WS = {"W0": W0, "small": W_SMALL, "dense": W_DENSE, "confident": W_CONFIDENT}
 
 
 def Wdm(W):
@@ -269,7 +272,7 @@ def judge_correction(res, site, x, W, x1, W1, code, info, case, sub):
         res.fail(site=site, clause="Wplus_lower_triangular", cls=cls, detail=dict(info), sub=sub, case=case)
     P, Pp = W @ W.T, W1 @ W1.T
     lam = float(np.min(np.linalg.eigvalsh((P - Pp + (P - Pp).T) / 2)))
-    if lam < -1e-12 * max(1.0, float(np.linalg.norm(P, 2))):
+    if lam < -1e-10 * float(np.linalg.norm(P, 2)):
         d = dict(info)
         d.update(min_eig_P_minus_Pplus=lam, x=x)
         res.fail(site=site, clause="covariance_never_increases", cls=cls, detail=d, sub=sub, case=case)
@@ -338,6 +341,37 @@ def explore_correct(case):
                     if wname == "small":
                         flat = [list(x), [W[rr, c] for c in range(6) for rr in range(c, 6)], list(y), [0.0], [STD_MAG], [BETA_MAG]]
                         sm.add(sxvm.run(pm, flat, sxvm.FLOAT)[1])
+    # magnetometer rejection "field too close to the body vertical" depends on the ESTIMATE: attitudes whose body z axis lies on /
+    # next to the predicted (horizontal, declination-rotated) field direction, from exactly aligned to 10 degrees off, both senses
+    if part == 0:
+        ncode1 = 0
+        for decl in (0.0, 0.3, -1.0):
+            nvec = np.array([math.cos(decl), math.sin(decl), 0.0])
+            for off_deg in (0.0, 0.05, 0.2, 0.5, 1.0, 3.0, 10.0):
+                for k, axd in enumerate((np.array([0, 0, 1.0]), np.array([-math.sin(decl), math.cos(decl), 0.0]), axs[5])):
+                    ax = np.cross(nvec, axd) if k == 2 else axd
+                    ax = ax / np.linalg.norm(ax)
+                    zb = ref.rot(ax * math.radians(off_deg)) @ nvec
+                    xb = np.cross(np.array([0.3, -0.5, 0.8]), zb)
+                    xb /= np.linalg.norm(xb)
+                    for sgn in (1.0, -1.0):
+                        C = np.column_stack([xb, sgn * np.cross(zb, xb), sgn * zb])
+                        r = ref.mrp_of(ref.logm_rot(C))
+                        x = np.concatenate([r, [0.01, -0.02, 0.005]])
+                        for wname, W in WS.items():
+                            for tag, y in (("consistent", sens_mag(C, decl, 0.0, 0.5)), ("offset", sens_mag(C, decl, 0.0, 0.5) + np.array([0.01, -0.02, 0.005]))):
+                                res.count("evaluations")
+                                res.nontrivial.add(hash((x.tobytes(), wname, tag, decl, "mz")))
+                                x1, W1, code, o = do_mag(x, W, y, decl)
+                                res.outcomes.add(hash((code, np.round(x1, 8).tobytes())))
+                                if not math.isfinite(code):
+                                    res.fail(site="mrp.correct_mag", clause="error_code_finite", cls="field_along_body_z", detail=dict(x=x, W=wname, y=y, decl=decl), sub="correct", case=case)
+                                    continue
+                                ncode1 += code == 1
+                                judge_correction(res, "mrp.correct_mag", x, W, x1, W1, code, dict(W=wname, y=y, tag="field_along_body_z;" + tag, decl=decl, off_deg=off_deg), case, "correct")
+        res.count("mag_rejections_too_close_to_vertical", int(ncode1))
+        if ncode1 == 0:
+            raise core.HarnessError("C11: the 'too close to vertical' magnetometer rejection was never reached")
     res.add_set("correct_accel_cells", len(sa))
     res.add_set("correct_mag_cells", len(sm))
     res.samples.append(dict(fn="corrections", states=len(rs)))
